@@ -243,6 +243,29 @@ class Report:
                            [(d[1].get("tokens") or "")[:120] for d in defs_]), "src/%s" % defs_[0][0])
             if ident_ in std_names:
                 self.ob("R-control", "macro/%s/shadows-std" % ident_, False, "the crate defines its own `%s!`: the rules read `%s!(..)` as the standard macro" % (ident_, ident_), "src/%s" % defs_[0][0])
+        # the build description: what the rules read is `src/` as compiled with the default features; a build script, another library root,
+        # a renamed or added dependency, other default features or a profile override change what is built without touching `src/`
+        try:
+            import tomllib
+            repo_ = self.ctx.repo
+            with open(os.path.join(repo_, "Cargo.toml"), "rb") as fh_:
+                man = tomllib.load(fh_)
+            probs = []
+            if os.path.exists(os.path.join(repo_, "build.rs")) or "build" in man.get("package", {}):
+                probs.append("a build script")
+            if man.get("lib", {}).get("path", "src/lib.rs") != "src/lib.rs" or man.get("lib", {}).get("proc-macro"):
+                probs.append("library root %r" % man.get("lib", {}).get("path"))
+            deps = man.get("dependencies", {})
+            if set(deps) != {"log", "realfft", "num-complex", "num-integer", "num-traits"} or any(isinstance(v_, dict) and ("package" in v_ or "path" in v_ or "git" in v_) for v_ in deps.values()):
+                probs.append("dependencies %s" % sorted(deps))
+            if man.get("features", {}).get("default") != ["fft_resampler"] or sorted(man.get("features", {})) != ["default", "fft_resampler", "log"]:
+                probs.append("features %s" % man.get("features"))
+            if "profile" in man or "patch" in man or "replace" in man or "target" in man:
+                probs.append("profile / patch / target sections")
+            self.ob("R-control", "manifest", not probs, "Cargo.toml differs from the reviewed build description in: %s" % probs if probs else
+                    "Cargo.toml: no build script, library root src/lib.rs, the five reviewed dependencies, default features [fft_resampler], no profile / patch overrides", "Cargo.toml")
+        except Exception as ex_:      # noqa: BLE001 - unreadable manifest: fail closed
+            self.ob("R-control", "manifest", False, "Cargo.toml could not be read: %s" % ex_, "Cargo.toml")
         if ncfg:
             self.ob("R-control", "build-mode-cfg/scan", True, "%d function bodies scanned for test-/debug-only conditional compilation" % ncfg, "src/")
         if n:
